@@ -9,6 +9,7 @@
 
 namespace QtLogger {
 
+QTLOGGER_DECL_SPEC
 JsonFormatter::JsonFormatter(bool compact)
     : m_compact(compact)
 {
